@@ -987,16 +987,18 @@ impl Scenario for Conc {
                                 Map::from_arc_regions(regions).unwrap()
                             } else {
                                 cx().count("probe.map_derived_by_insert_and_remove");
+                                // control region first, so that the published map is what the last
+                                // insert_region / remove_region returned
                                 let mut m: Map = (*cur).clone();
-                                if had {
-                                    let l = m.find_region(GuestAddress(base)).unwrap().len();
-                                    m = m.remove_region(GuestAddress(base), l).unwrap().0;
-                                } else {
-                                    m = m.insert_region(regions.pop().unwrap()).unwrap();
-                                }
                                 let cl = m.find_region(GuestAddress(0)).unwrap().len();
                                 m = m.remove_region(GuestAddress(0), cl).unwrap().0;
-                                m.insert_region(mk_ctl(gen)).unwrap()
+                                m = m.insert_region(mk_ctl(gen)).unwrap();
+                                if had {
+                                    let l = m.find_region(GuestAddress(base)).unwrap().len();
+                                    m.remove_region(GuestAddress(base), l).unwrap().0
+                                } else {
+                                    m.insert_region(regions.pop().unwrap()).unwrap()
+                                }
                             };
                             let (nlist, _) = observe(&nm);
                             drop(cur);
